@@ -30,7 +30,8 @@ for d in sorted(glob.glob(os.path.join(ROOT, "seeded", "*"))):
         det = {}
         for p in targets:
             t0 = time.time()
-            out = subprocess.run([os.path.join(ROOT, "check"), p, tier], capture_output=True, text=True, cwd=ROOT)
+            use_tier = meta.get("needs_tier", tier)
+            out = subprocess.run([os.path.join(ROOT, "check"), p, use_tier], capture_output=True, text=True, cwd=ROOT)
             keys = sorted({l.strip()[4:] for l in out.stdout.splitlines() if l.startswith("  key=")})
             det[p] = dict(exit=out.returncode, violation_lines=out.stdout.count("\nVIOLATION") + out.stdout.startswith("VIOLATION"), keys=keys[:6], seconds=round(time.time() - t0, 1))
             rows.append((sid, p, "exit %d, %s" % (out.returncode, ", ".join(keys[:3]) or "no violation")))
